@@ -1,8 +1,1162 @@
-//! C13 framing and ancillary codecs — not built yet.
+//! C13 — framing and ancillary codecs: round trip and hostile-input safety.
+//!
+//! Parts (select with `--parts a,b,...`, default all):
+//! * `rt-ex`     every composition x every EOF placement for all streams up to
+//!               `--ex-n` bytes (frame lists over payload lengths {0,1,2,3});
+//! * `rt-cuts`   every pair of cut points / (EOF, cut) pair for streams up to
+//!               `--cuts-n` bytes (payload lengths {0,2,9});
+//! * `rt-rand`   seeded frame lists with boundary payload lengths, all
+//!               framers x codecs, short-write scripts, sink modes,
+//!               fragmentation and EOF classes;
+//! * `hostile-ex`/`hostile-rand`  peer byte strings (alphabet enumeration,
+//!               boundary dictionary, random) against a reference parser;
+//! * `custom-err` a user framer that returns `Err` (max frame length);
+//! * `anc-ex`/`anc-rand`/`anc-hostile`/`anc-huge`  control messages
+//!               (see c13_anc.rs).
 
-use vcommon::Args;
+#[path = "c13_anc.rs"]
+mod anc;
+#[path = "c13_frame.rs"]
+mod frame;
+#[path = "c13_io.rs"]
+mod io;
 
-pub fn main(_args: &Args) {
-    eprintln!("c13: not implemented");
-    std::process::exit(3);
+use compio_buf::bytes::Bytes;
+use vcommon::{Args, Report, Rng, Value, json, panics};
+
+use self::{
+    frame::{Cd, Exp, Fail, Fr, Items, Msg, all_framers},
+    io::{hex, unhex},
+};
+
+// ---------------------------------------------------------------------------
+// Item specifications (replayable descriptions of payloads)
+// ---------------------------------------------------------------------------
+
+#[derive(Clone, Debug, PartialEq)]
+pub enum Spec {
+    B { len: usize, pat: u8 },
+    V { len: usize },
+    M { seed: u64, name_len: usize, data_len: usize, poison: bool },
+}
+
+
+fn gen_bytes(fr: Fr, pat: u8, idx: usize, len: usize) -> Vec<u8> {
+    let alpha = |i: usize| b'A' + ((idx * 7 + i) % 26) as u8;
+    let v: Vec<u8> = match pat {
+        0 => (0..len).map(alpha).collect(),
+        1 => {
+            if let Some(d) = fr.delim() {
+                // ends with / starts with a proper prefix of the delimiter
+                let p = &d[..d.len() - 1];
+                let k = p.len().min(len);
+                let mut a: Vec<u8> = (0..len - k).map(|_| b'x').collect();
+                a.extend_from_slice(&p[..k]);
+                if fr.representable(&a).is_ok() {
+                    a
+                } else {
+                    let mut b = p[..k].to_vec();
+                    b.extend((0..len - k).map(|_| b'x'));
+                    b
+                }
+            } else {
+                // looks like length fields
+                (0..len).map(|i| [0u8, 1, 2, 0, 0xff, 0, 0, 3][(idx + i) % 8]).collect()
+            }
+        }
+        _ => {
+            let mut r = Rng::new(0xC13 ^ (idx as u64) << 32 ^ len as u64);
+            let mut v = r.bytes(len);
+            if let Some(d) = fr.delim() {
+                for b in v.iter_mut() {
+                    if d.contains(b) {
+                        *b = b'y';
+                    }
+                }
+            }
+            v
+        }
+    };
+    if fr.delim().is_some() && fr.representable(&v).is_err() { (0..len).map(alpha).collect() } else { v }
+}
+
+fn gen_value(len: usize) -> Value {
+    // a JSON text of exactly `len` bytes where possible
+    match len {
+        0 | 1 => json!(0),
+        2 => json!(""),
+        3 => json!("a"),
+        4 => Value::Null,
+        _ => Value::String("a".repeat(len - 2)),
+    }
+}
+
+fn gen_msg(seed: u64, name_len: usize, data_len: usize, poison: bool) -> Msg {
+    let mut r = Rng::new(seed);
+    let alphabet = ['a', 'Z', '0', ' ', '"', '\\', 'é', '\n', '{', ','];
+    Msg {
+        id: r.next_u64() as u32,
+        name: (0..name_len).map(|_| *r.pick(&alphabet)).collect(),
+        data: r.bytes(data_len),
+        opt: if r.chance(1, 2) { Some(r.next_u64() as i64) } else { None },
+        poison,
+    }
+}
+
+fn build_items(fr: Fr, specs: &[Spec]) -> Items {
+    match specs.first() {
+        None | Some(Spec::B { .. }) => Items::B(
+            specs
+                .iter()
+                .enumerate()
+                .map(|(i, s)| match s {
+                    Spec::B { len, pat } => Bytes::from(gen_bytes(fr, *pat, i, *len)),
+                    _ => Bytes::new(),
+                })
+                .collect(),
+        ),
+        Some(Spec::V { .. }) => Items::V(
+            specs
+                .iter()
+                .map(|s| match s {
+                    Spec::V { len } => gen_value(*len),
+                    _ => Value::Null,
+                })
+                .collect(),
+        ),
+        Some(Spec::M { .. }) => Items::M(
+            specs
+                .iter()
+                .map(|s| match s {
+                    Spec::M { seed, name_len, data_len, poison } => gen_msg(*seed, *name_len, *data_len, *poison),
+                    _ => gen_msg(0, 0, 0, false),
+                })
+                .collect(),
+        ),
+    }
+}
+
+fn spec_json(s: &Spec) -> Value {
+    match s {
+        Spec::B { len, pat } => json!({"t": "B", "len": len, "pat": pat}),
+        Spec::V { len } => json!({"t": "V", "len": len}),
+        Spec::M { seed, name_len, data_len, poison } => json!({"t": "M", "seed": seed, "name_len": name_len, "data_len": data_len, "poison": poison}),
+    }
+}
+
+fn spec_parse(v: &Value) -> Spec {
+    let u = |k: &str| v[k].as_u64().unwrap_or(0);
+    match v["t"].as_str().unwrap_or("B") {
+        "V" => Spec::V { len: u("len") as usize },
+        "M" => Spec::M { seed: u("seed"), name_len: u("name_len") as usize, data_len: u("data_len") as usize, poison: v["poison"].as_bool().unwrap_or(false) },
+        _ => Spec::B { len: u("len") as usize, pat: u("pat") as u8 },
+    }
+}
+
+/// Payload bytes per item as the codec produces them (None = item cannot be
+/// encoded).
+fn payloads(cd: Cd, items: &Items) -> Vec<Option<Vec<u8>>> {
+    let js = |v: &dyn Fn() -> Result<Vec<u8>, serde_json::Error>| v().ok();
+    match items {
+        Items::B(v) => v.iter().map(|b| Some(b.to_vec())).collect(),
+        Items::V(v) => v
+            .iter()
+            .map(|x| js(&|| if cd == Cd::JsonPretty { serde_json::to_vec_pretty(x) } else { serde_json::to_vec(x) }))
+            .collect(),
+        Items::M(v) => v
+            .iter()
+            .map(|x| js(&|| if cd == Cd::JsonPretty { serde_json::to_vec_pretty(x) } else { serde_json::to_vec(x) }))
+            .collect(),
+    }
+}
+
+fn expected_of(items: &Items, keep: &[bool]) -> Exp {
+    fn f<T: Clone>(v: &[T], keep: &[bool]) -> Vec<Option<T>> {
+        v.iter().zip(keep).filter(|(_, k)| **k).map(|(x, _)| Some(x.clone())).collect()
+    }
+    match items {
+        Items::B(v) => Exp::B(f(v, keep)),
+        Items::V(v) => Exp::V(f(v, keep)),
+        Items::M(v) => Exp::M(f(v, keep)),
+    }
+}
+
+// ---------------------------------------------------------------------------
+// Classes
+// ---------------------------------------------------------------------------
+
+fn cuts_of(frags: &[usize], k: usize) -> Vec<usize> {
+    let mut v = Vec::new();
+    let mut p = 0;
+    for f in frags {
+        p += f;
+        if p >= k {
+            break;
+        }
+        v.push(p);
+    }
+    v
+}
+
+fn frame_of(bounds: &[usize], pos: usize) -> Option<(usize, usize)> {
+    // frame [start, end) with start < pos < end
+    let mut start = 0;
+    for b in bounds {
+        if pos > start && pos < *b {
+            return Some((start, *b));
+        }
+        start = *b;
+    }
+    None
+}
+
+fn in_header(fr: Fr, bounds: &[usize], pos: usize) -> bool {
+    match frame_of(bounds, pos) {
+        Some((s, e)) => {
+            let (hs, he) = fr.header_range(s, e);
+            pos > hs && pos < he
+        }
+        None => false,
+    }
+}
+
+fn frag_class(fr: Fr, bounds: &[usize], frags: &[usize], k: usize) -> &'static str {
+    if k == 0 {
+        return "empty";
+    }
+    let cuts = cuts_of(frags, k);
+    if cuts.is_empty() {
+        return "whole";
+    }
+    if cuts.len() == k - 1 {
+        return "bytewise";
+    }
+    if cuts.iter().any(|c| in_header(fr, bounds, *c)) {
+        return "hdr-split";
+    }
+    if cuts.iter().all(|c| bounds.contains(c)) {
+        return "at-boundaries";
+    }
+    "payload-split"
+}
+
+fn cut_class(fr: Fr, bounds: &[usize], k: usize, n: usize) -> &'static str {
+    if k >= n {
+        return "full";
+    }
+    if k == 0 {
+        return "nothing";
+    }
+    if bounds.contains(&k) {
+        return "at-boundary";
+    }
+    if fr == Fr::Noop {
+        return "mid";
+    }
+    if in_header(fr, bounds, k) || frame_of(bounds, k).is_some_and(|(s, e)| fr.header_range(s, e).1 == k && fr.len_params().is_none()) {
+        return "in-header";
+    }
+    // exactly after a complete length header counts as in-payload
+    "in-payload"
+}
+
+fn vsig(rule: &str, fr: Fr, cd: Cd, cond: &str) -> String {
+    format!("C13/{rule}/{}/{}/{cond}", fr.kind(), cd.name())
+}
+
+// ---------------------------------------------------------------------------
+// Context
+// ---------------------------------------------------------------------------
+
+pub struct Ctx {
+    pub rep: Report,
+    pub shard: u64,
+    pub nshards: u64,
+    pub rr: u64,
+    pub rng: Rng,
+    pub thorough: bool,
+    pub incomplete: bool,
+}
+
+impl Ctx {
+    /// Round-robin ownership of enumerated cases.
+    pub fn mine(&mut self) -> bool {
+        let m = self.rr % self.nshards == self.shard;
+        self.rr += 1;
+        m
+    }
+
+    fn panic_verdict(&mut self, p: &panics::PanicInfo, fr: Fr, cd: Cd, cond: &str, replay: Value) {
+        match p.origin() {
+            panics::Origin::Repo(loc) => {
+                let _ = cd;
+                self.rep.violation(&format!("C13/{}/{}/{cond}", p.sig(), fr.kind()), &format!("panic in compio at {loc}: {}", p.message), replay);
+            }
+            o => self.rep.inconclusive(&format!("harness/foreign panic {o:?}: {}", p.message.chars().take(120).collect::<String>())),
+        }
+    }
+}
+
+// ---------------------------------------------------------------------------
+// Round trip
+// ---------------------------------------------------------------------------
+
+/// A frame list encoded through the real Sink half, ready for deliveries.
+struct Encoded {
+    fr: Fr,
+    cd: Cd,
+    specs: Vec<Spec>,
+    wscript: Vec<usize>,
+    mode: u8,
+    exp: Exp,
+    stream: Vec<u8>,
+    bounds: Vec<usize>,
+    m: usize,
+    /// Some(class) when the list is outside what the wire format can carry.
+    unrepresentable: Option<&'static str>,
+}
+
+impl Encoded {
+    fn replay(&self, frags: &[usize], cut: Option<usize>) -> Value {
+        json!({"part": "frame", "framer": self.fr.name(), "codec": self.cd.name(),
+               "items": self.specs.iter().map(spec_json).collect::<Vec<_>>(),
+               "wscript": self.wscript, "mode": self.mode, "frags": frags, "cut": cut,
+               "stream_len": self.stream.len(), "stream_head": hex(&self.stream[..self.stream.len().min(48)]), "bounds": self.bounds})
+    }
+}
+
+/// Encode through the real Sink (mode 0 for the boundaries, then `mode`),
+/// check the sink-side rules. None = case abandoned (verdict already given).
+fn encode(ctx: &mut Ctx, fr: Fr, cd: Cd, specs: &[Spec], wscript: &[usize], mode: u8) -> Option<Encoded> {
+    let items = build_items(fr, specs);
+    let pl = payloads(cd, &items);
+    let keep: Vec<bool> = pl.iter().map(|p| p.is_some()).collect();
+    let mut unrepresentable = None;
+    for p in pl.iter().flatten() {
+        if let Err(c) = fr.representable(p) {
+            if c == "payload-contains-delimiter" {
+                ctx.rep.count("skipped_payload_contains_delimiter", 1);
+                return None;
+            }
+            unrepresentable = Some(c);
+        }
+    }
+    let replay = |what: &str| json!({"part": "frame", "framer": fr.name(), "codec": cd.name(), "items": specs.iter().map(spec_json).collect::<Vec<_>>(), "wscript": wscript, "mode": mode, "frags": [], "cut": null, "stage": what});
+    let cond = unrepresentable.unwrap_or("sink");
+    let enc0 = match panics::catch(|| frame::encode_case(fr, cd, &items, wscript, 0)) {
+        Ok(Ok(o)) => o,
+        Ok(Err(e)) => {
+            ctx.rep.violation(&vsig("sink-stalled", fr, cd, cond), &e, replay("sink"));
+            return None;
+        }
+        Err(p) => {
+            ctx.panic_verdict(&p, fr, cd, cond, replay("sink"));
+            return None;
+        }
+    };
+    // per-item outcome of the sink
+    for (i, (e, k)) in enc0.item_errors.iter().zip(&keep).enumerate() {
+        if *e == *k {
+            ctx.rep.violation(
+                &vsig(if *e { "sink-rejected-item" } else { "sink-accepted-unencodable-item" }, fr, cd, cond),
+                &format!("item {i}: sink error={e}, encodable={k}"),
+                replay("sink"),
+            );
+            return None;
+        }
+    }
+    let mut bounds = Vec::new();
+    let mut prev = 0usize;
+    for (i, b) in enc0.bounds.iter().enumerate() {
+        if keep[i] {
+            if *b <= prev && fr != Fr::Noop && !(fr.delim().is_none() && fr.len_params().is_none()) {
+                ctx.rep.violation(&vsig("sink-wrote-nothing", fr, cd, cond), &format!("item {i} added no bytes to the stream"), replay("sink"));
+                return None;
+            }
+            bounds.push(*b);
+        } else if *b != prev {
+            ctx.rep.violation(&vsig("sink-leaked-failed-item", fr, cd, cond), &format!("item {i} failed to encode but {} bytes reached the writer", b - prev), replay("sink"));
+            return None;
+        }
+        prev = *b;
+    }
+    if unrepresentable.is_none() {
+        let mut want = Vec::new();
+        for p in pl.iter().flatten() {
+            want.extend_from_slice(&fr.ref_encode(p));
+        }
+        if want != enc0.stream {
+            let at = want.iter().zip(&enc0.stream).position(|(a, b)| a != b).unwrap_or(want.len().min(enc0.stream.len()));
+            ctx.rep.violation(
+                &vsig("wire-format", fr, cd, "sink"),
+                &format!("stream written by the Sink differs from the documented format at offset {at} (lengths {} vs {})", enc0.stream.len(), want.len()),
+                replay("sink"),
+            );
+            return None;
+        }
+    }
+    if mode != 0 {
+        match panics::catch(|| frame::encode_case(fr, cd, &items, wscript, mode)) {
+            Ok(Ok(o)) => {
+                if o.stream != enc0.stream {
+                    ctx.rep.violation(
+                        &vsig("sink-mode-changes-stream", fr, cd, ["send", "feed+flush", "feed+close", "send+close"][mode as usize]),
+                        &format!("send-each wrote {} bytes, this mode {}", enc0.stream.len(), o.stream.len()),
+                        replay("sink"),
+                    );
+                    return None;
+                }
+                // observations outside the statement: counted, not judged
+                if !o.flush_last {
+                    ctx.rep.count("obs_sink_flush_or_shutdown_not_forwarded_after_last_write", 1);
+                }
+                if mode >= 2 && !o.shutdown && !specs.is_empty() {
+                    ctx.rep.count("obs_sink_close_without_shutdown", 1);
+                }
+            }
+            Ok(Err(e)) => {
+                ctx.rep.violation(&vsig("sink-stalled", fr, cd, cond), &e, replay("sink"));
+                return None;
+            }
+            Err(p) => {
+                ctx.panic_verdict(&p, fr, cd, cond, replay("sink"));
+                return None;
+            }
+        }
+    }
+    ctx.rep.max("max_stream_len", enc0.stream.len() as i64);
+    Some(Encoded {
+        fr,
+        cd,
+        specs: specs.to_vec(),
+        wscript: wscript.to_vec(),
+        mode,
+        exp: expected_of(&items, &keep),
+        m: bounds.len(),
+        stream: enc0.stream,
+        bounds,
+        unrepresentable,
+    })
+}
+
+/// One delivery of (a prefix of) the encoded stream. Returns false when a
+/// violation was recorded.
+fn deliver(ctx: &mut Ctx, e: &Encoded, frags: &[usize], cut: Option<usize>, mode_tag: &str) -> bool {
+    let n = e.stream.len();
+    let k = cut.unwrap_or(n).min(n);
+    let data = &e.stream[..k];
+    let fc = frag_class(e.fr, &e.bounds, frags, k);
+    let cc = cut_class(e.fr, &e.bounds, k, n);
+    let cond = match e.unrepresentable {
+        Some(c) => c.to_string(),
+        None => format!("cut={cc}"),
+    };
+    let r = panics::catch(|| frame::decode_case(e.fr, e.cd, &e.exp, &e.bounds, data, frags));
+    match r {
+        Ok((None, st)) => {
+            let trivial = fc == "whole" && cc == "full" && e.m <= 1 || n == 0;
+            ctx.rep.max("max_reads_minus_len", st.reads as i64 - k as i64);
+            if trivial {
+                ctx.rep.eval(None);
+            } else {
+                ctx.rep.eval(Some(format!("{mode_tag}/{}/{}/m{}/{fc}/{cc}", e.fr.name(), e.cd.name(), e.m.min(5))));
+            }
+            if cc == "in-header" || cc == "in-payload" {
+                ctx.rep.floor("saw-trailing-partial-frame", true);
+            }
+            if fc == "hdr-split" {
+                ctx.rep.floor("saw-fragment-splitting-a-header", true);
+            }
+            if ctx.rep.want_sample() && !trivial && e.m >= 2 && frags.len() >= 2 {
+                ctx.rep.sample(e.replay(frags, cut));
+            }
+            true
+        }
+        Ok((Some(Fail { rule, what }), _)) => {
+            ctx.rep.eval(None);
+            let sig = match e.unrepresentable {
+                Some(c) => format!("C13/roundtrip-broken/{}/{c}", e.fr.kind()),
+                None => vsig(rule, e.fr, e.cd, &cond),
+            };
+            ctx.rep.violation(
+                &sig,
+                &format!("{} [{} frames, stream {n} bytes, delivered {k} as {fc}, {rule}]: {what}", e.fr.name(), e.m),
+                e.replay(frags, cut),
+            );
+            false
+        }
+        Err(p) => {
+            ctx.rep.eval(None);
+            ctx.panic_verdict(&p, e.fr, e.cd, &cond, e.replay(frags, cut));
+            false
+        }
+    }
+}
+
+fn mask_frags(mask: u64, k: usize) -> Vec<usize> {
+    // bit i set = cut after byte i+1
+    let mut v = Vec::new();
+    let mut last = 0;
+    for i in 0..k.saturating_sub(1) {
+        if mask >> i & 1 == 1 {
+            v.push(i + 1 - last);
+            last = i + 1;
+        }
+    }
+    if k > last {
+        v.push(k - last);
+    }
+    v
+}
+
+/// All frame lists (as payload-length vectors) over `lens`, 0..=max_frames.
+fn lists(lens: &[usize], min_frames: usize, max_frames: usize) -> Vec<Vec<usize>> {
+    let mut out = Vec::new();
+    let mut cur: Vec<Vec<usize>> = vec![vec![]];
+    for depth in 0..=max_frames {
+        if depth >= min_frames {
+            out.extend(cur.iter().cloned());
+        }
+        if depth == max_frames {
+            break;
+        }
+        let mut next = Vec::new();
+        for c in &cur {
+            for l in lens {
+                let mut d = c.clone();
+                d.push(*l);
+                next.push(d);
+            }
+        }
+        cur = next;
+    }
+    out
+}
+
+fn overhead(fr: Fr) -> usize {
+    fr.len_params().map(|p| p.0).or(fr.delim().map(|d| d.len())).unwrap_or(0)
+}
+
+struct ExCase {
+    fr: Fr,
+    cd: Cd,
+    specs: Vec<Spec>,
+    n: usize,
+}
+
+fn ex_cases(lens: &[usize], min_frames: usize, min_n: usize, max_n: usize, with_json: bool) -> Vec<ExCase> {
+    let mut v = Vec::new();
+    let ls = lists(lens, min_frames, 4);
+    for fr in all_framers() {
+        let oh = overhead(fr);
+        for l in &ls {
+            let n: usize = l.iter().map(|x| x + oh).sum();
+            if n < min_n || n > max_n {
+                continue;
+            }
+            for pat in [0u8, 1] {
+                if pat == 1 && (l.iter().all(|x| *x == 0) || fr == Fr::Noop) {
+                    continue;
+                }
+                v.push(ExCase { fr, cd: Cd::Bytes, specs: l.iter().map(|len| Spec::B { len: *len, pat }).collect(), n });
+            }
+        }
+    }
+    if with_json {
+        let jf = [Fr::Len { w: 1, be: true }, Fr::Len { w: 2, be: false }, Fr::Len { w: 4, be: true }, Fr::Line, Fr::CharR, Fr::Any(0)];
+        let jl = lists(&[1, 2, 3, 4], 1, 3);
+        for fr in jf {
+            let oh = overhead(fr);
+            for l in &jl {
+                let n: usize = l.iter().map(|x| x + oh).sum();
+                if n < min_n || n > max_n {
+                    continue;
+                }
+                v.push(ExCase { fr, cd: Cd::Json, specs: l.iter().map(|len| Spec::V { len: *len }).collect(), n });
+            }
+        }
+    }
+    // heavy first, so that round-robin sharding balances
+    v.sort_by(|a, b| b.n.cmp(&a.n));
+    v
+}
+
+fn part_rt_ex(ctx: &mut Ctx, max_n: usize) {
+    let cases = ex_cases(&[0, 1, 2, 3], 0, 0, max_n, true);
+    let mut done = 0u64;
+    for c in &cases {
+        if !ctx.mine() {
+            continue;
+        }
+        if ctx.rep.out_of_time() {
+            ctx.incomplete = true;
+            break;
+        }
+        let Some(e) = encode(ctx, c.fr, c.cd, &c.specs, &[], 0) else { continue };
+        let n = e.stream.len();
+        'cuts: for k in 0..=n {
+            let combos = 1u64 << k.saturating_sub(1);
+            for mask in 0..combos {
+                let frags = mask_frags(mask, k);
+                if !deliver(ctx, &e, &frags, if k == n { None } else { Some(k) }, "ex") {
+                    break 'cuts;
+                }
+            }
+        }
+        done += 1;
+    }
+    ctx.rep.count("rt_ex_lists", done as i64);
+    ctx.rep.note(format!("rt-ex: all compositions x all EOF placements for every stream <= {max_n} bytes, lists of 0..=4 frames over payload lengths {{0,1,2,3}}, {} (framer, codec, list, content) cases in total", cases.len()));
+}
+
+fn part_rt_cuts(ctx: &mut Ctx, max_n: usize) {
+    let cases = ex_cases(&[0, 2, 9], 2, 13, max_n, false);
+    let mut done = 0u64;
+    for c in &cases {
+        if !ctx.mine() {
+            continue;
+        }
+        if ctx.rep.out_of_time() {
+            ctx.incomplete = true;
+            break;
+        }
+        // short writes on the sink side as a function of the case
+        let ws: Vec<usize> = match done % 3 {
+            0 => vec![],
+            1 => vec![1],
+            _ => vec![3, 1, 7],
+        };
+        let Some(e) = encode(ctx, c.fr, c.cd, &c.specs, &ws, (done % 4) as u8) else { continue };
+        let n = e.stream.len();
+        let mut ok = true;
+        // full stream: every pair of cut points (i <= j; i == j is a single cut)
+        'a: for i in 1..n {
+            for j in i..n {
+                let frags = if i == j { vec![i, n - i] } else { vec![i, j - i, n - j] };
+                if !deliver(ctx, &e, &frags, None, "cuts") {
+                    ok = false;
+                    break 'a;
+                }
+            }
+        }
+        // every EOF placement x every single cut before it
+        if ok {
+            'b: for k in 0..n {
+                for i in 0..k.max(1) {
+                    let frags = if i == 0 { vec![k] } else { vec![i, k - i] };
+                    if !deliver(ctx, &e, &frags, Some(k), "cuts") {
+                        break 'b;
+                    }
+                }
+            }
+        }
+        done += 1;
+    }
+    ctx.rep.count("rt_cuts_lists", done as i64);
+    ctx.rep.note(format!("rt-cuts: all cut pairs and all (EOF, cut) pairs for every stream of 13..={max_n} bytes, lists of 2..=4 frames over payload lengths {{0,2,9}}, {} cases in total", cases.len()));
+}
+
+const RND_LENS: [usize; 23] = [0, 1, 2, 3, 7, 8, 15, 16, 17, 63, 64, 65, 254, 255, 256, 257, 1000, 4095, 4096, 4097, 65535, 65536, 70000];
+
+fn pick_len(r: &mut Rng, max_len: usize) -> usize {
+    let pool: Vec<usize> = RND_LENS.iter().copied().filter(|l| *l <= max_len).collect();
+    match r.below(10) {
+        0..=4 => pool[r.below(pool.len().min(10))],
+        5..=7 => pool[r.below(pool.len().min(16))],
+        8 => pool[r.below(pool.len())],
+        _ => r.below(max_len.min(300) + 1),
+    }
+}
+
+fn random_frags(r: &mut Rng, fr: Fr, bounds: &[usize], k: usize) -> Vec<usize> {
+    if k == 0 {
+        return vec![];
+    }
+    let from_cuts = |mut cuts: Vec<usize>| {
+        cuts.retain(|c| *c > 0 && *c < k);
+        cuts.sort();
+        cuts.dedup();
+        let mut v = Vec::new();
+        let mut last = 0;
+        for c in cuts {
+            v.push(c - last);
+            last = c;
+        }
+        v.push(k - last);
+        v
+    };
+    match r.below(7) {
+        0 => vec![k],
+        1 if k <= 6000 => vec![1; k],
+        2 => {
+            let c = r.range(2, 17);
+            let mut v = vec![c; k / c];
+            if k % c > 0 {
+                v.push(k % c);
+            }
+            v
+        }
+        3 => {
+            // a cut inside every header / delimiter that has an inside
+            let mut cuts = Vec::new();
+            let mut s = 0;
+            for b in bounds {
+                let (hs, he) = fr.header_range(s, *b);
+                if he - hs >= 2 {
+                    cuts.push(r.range(hs + 1, he - 1));
+                }
+                if r.chance(1, 3) {
+                    cuts.push(r.range(s, *b));
+                }
+                s = *b;
+            }
+            from_cuts(cuts)
+        }
+        4 => from_cuts(bounds.to_vec()),
+        5 => from_cuts(bounds.iter().map(|b| if r.chance(1, 2) { b + 1 } else { b.saturating_sub(1) }).collect()),
+        _ => {
+            let nc = r.below(k.min(12)) + 1;
+            from_cuts((0..nc).map(|_| r.below(k)).collect())
+        }
+    }
+}
+
+fn random_cut(r: &mut Rng, fr: Fr, bounds: &[usize], n: usize) -> Option<usize> {
+    if n == 0 {
+        return None;
+    }
+    match r.below(8) {
+        0..=2 => None,
+        3 => Some(r.below(n)),
+        4 if !bounds.is_empty() => Some(*r.pick(bounds)).filter(|b| *b < n),
+        5 if !bounds.is_empty() => {
+            // inside a header / delimiter
+            let i = r.below(bounds.len());
+            let s = if i == 0 { 0 } else { bounds[i - 1] };
+            let (hs, he) = fr.header_range(s, bounds[i]);
+            if he > hs { Some(r.range(hs, he - 1).max(1).min(n - 1)) } else { Some(r.below(n)) }
+        }
+        6 => Some(n - 1),
+        _ => Some(r.below(n)),
+    }
+}
+
+fn part_rt_rand(ctx: &mut Ctx, iters: usize, max_len: usize) {
+    let frs = all_framers();
+    let base = ctx.rng.fork(0x5254);
+    for it in 0..iters {
+        if ctx.rep.out_of_time() {
+            break;
+        }
+        let mut r = base.fork(it as u64);
+        let fr = *r.pick(&frs);
+        let m = match r.below(10) {
+            0 => 0,
+            1..=2 => 1,
+            3..=7 => r.range(2, 4),
+            _ => r.range(5, 8),
+        };
+        let ty = if fr == Fr::Noop { 0 } else { r.below(4) };
+        let mut cd = Cd::Bytes;
+        let specs: Vec<Spec> = (0..m)
+            .map(|_| {
+                let len = pick_len(&mut r, max_len);
+                match ty {
+                    0 | 1 => Spec::B { len, pat: r.below(3) as u8 },
+                    2 => {
+                        cd = Cd::Json;
+                        Spec::V { len }
+                    }
+                    _ => {
+                        cd = if fr.len_params().is_some() && r.chance(1, 3) { Cd::JsonPretty } else { Cd::Json };
+                        Spec::M { seed: r.next_u64(), name_len: r.size(len.min(2000)), data_len: r.size(len.min(3000) / 4), poison: r.chance(1, 12) }
+                    }
+                }
+            })
+            .collect();
+        if matches!(specs.first(), Some(Spec::V { .. } | Spec::M { .. })) && cd == Cd::Bytes {
+            cd = Cd::Json;
+        }
+        let ws: Vec<usize> = match r.below(4) {
+            0 | 1 => vec![],
+            2 => vec![r.range(1, 5)],
+            _ => (0..r.range(1, 4)).map(|_| r.size(40).max(1)).collect(),
+        };
+        let mode = r.below(4) as u8;
+        let Some(e) = encode(ctx, fr, cd, &specs, &ws, mode) else { continue };
+        if e.unrepresentable.is_some() {
+            ctx.rep.floor("saw-payload-exceeding-length-field", true);
+        }
+        if specs.iter().any(|s| matches!(s, Spec::M { poison: true, .. })) {
+            ctx.rep.floor("saw-unencodable-item-in-sink", true);
+        }
+        let n = e.stream.len();
+        for _ in 0..r.range(2, 5) {
+            let cut = random_cut(&mut r, fr, &e.bounds, n);
+            let frags = random_frags(&mut r, fr, &e.bounds, cut.unwrap_or(n));
+            if !deliver(ctx, &e, &frags, cut, "rnd") {
+                break;
+            }
+        }
+    }
+}
+
+// ---------------------------------------------------------------------------
+// Hostile streams
+// ---------------------------------------------------------------------------
+
+fn hostile_expected(fr: Fr, cd: Cd, s: &[u8]) -> (Exp, Vec<usize>) {
+    let frames = fr.ref_parse(s);
+    let bounds: Vec<usize> = frames.iter().map(|f| f.2).collect();
+    let exp = match cd {
+        Cd::Bytes => Exp::B(frames.iter().map(|f| Some(Bytes::copy_from_slice(&s[f.0..f.1]))).collect()),
+        _ => Exp::V(frames.iter().map(|f| serde_json::from_slice::<Value>(&s[f.0..f.1]).ok()).collect()),
+    };
+    (exp, bounds)
+}
+
+fn hostile_one(ctx: &mut Ctx, fr: Fr, cd: Cd, s: &[u8], frags: &[usize], class: &str) -> bool {
+    let (exp, bounds) = hostile_expected(fr, cd, s);
+    let replay = json!({"part": "hostile", "framer": fr.name(), "codec": cd.name(), "stream": hex(s), "frags": frags, "class": class});
+    let fc = frag_class(fr, &bounds, frags, s.len());
+    match panics::catch(|| frame::decode_case(fr, cd, &exp, &bounds, s, frags)) {
+        Ok((None, st)) => {
+            ctx.rep.max("max_reads_minus_len", st.reads as i64 - s.len() as i64);
+            let partial = bounds.last().copied().unwrap_or(0) < s.len();
+            ctx.rep.eval(Some(format!(
+                "hostile/{}/{}/{class}/{fc}/ok{}err{}{}",
+                fr.name(),
+                cd.name(),
+                st.items_ok.min(3),
+                st.items_err.min(2),
+                if partial { "+partial" } else { "" }
+            )));
+            if ctx.rep.want_sample() && s.len() > 4 && frags.len() > 1 {
+                ctx.rep.sample(replay);
+            }
+            true
+        }
+        Ok((Some(Fail { rule, what }), _)) => {
+            ctx.rep.eval(None);
+            ctx.rep.violation(&vsig(rule, fr, cd, &format!("hostile:{class}")), &format!("{} stream {} as {fc}: {what}", fr.name(), hex(&s[..s.len().min(40)])), replay);
+            false
+        }
+        Err(p) => {
+            ctx.rep.eval(None);
+            ctx.panic_verdict(&p, fr, cd, &format!("hostile:{class}"), replay);
+            false
+        }
+    }
+}
+
+fn hostile_alphabet(fr: Fr) -> Vec<u8> {
+    if let Some(d) = fr.delim() {
+        let mut a = d.clone();
+        a.sort();
+        a.dedup();
+        a.push(b'x');
+        a
+    } else {
+        vec![0x00, 0x01, 0x02, 0xff]
+    }
+}
+
+fn part_hostile_ex(ctx: &mut Ctx, max_len: usize) {
+    let mut total = 0u64;
+    for fr in all_framers() {
+        if fr == Fr::Noop {
+            continue;
+        }
+        let alpha = hostile_alphabet(fr);
+        let a = alpha.len();
+        let lmax = if a >= 5 { max_len.saturating_sub(1) } else { max_len };
+        for len in 0..=lmax {
+            let count = (a as u64).pow(len as u32);
+            for idx in 0..count {
+                total += 1;
+                if !ctx.mine() {
+                    continue;
+                }
+                if total % 4096 == 0 && ctx.rep.out_of_time() {
+                    ctx.incomplete = true;
+                    return;
+                }
+                let mut s = Vec::with_capacity(len);
+                let mut x = idx;
+                for _ in 0..len {
+                    s.push(alpha[(x % a as u64) as usize]);
+                    x /= a as u64;
+                }
+                let class = "alphabet";
+                if !hostile_one(ctx, fr, Cd::Bytes, &s, &[s.len()], class) {
+                    continue;
+                }
+                if len >= 2 {
+                    hostile_one(ctx, fr, Cd::Bytes, &s, &vec![1; len], class);
+                    // all two-fragment deliveries
+                    for i in 1..len {
+                        hostile_one(ctx, fr, Cd::Bytes, &s, &[i, len - i], class);
+                    }
+                }
+            }
+        }
+    }
+    ctx.rep.count("hostile_ex_strings_total", total as i64);
+    ctx.rep.note(format!("hostile-ex: every string up to {max_len} bytes over {{header-like bytes 00 01 02 ff}} resp. {{delimiter bytes, 'x'}} per framer, delivered whole, bytewise and in every two-fragment split"));
+}
+
+/// Boundary dictionary for length-delimited streams: (class, header value).
+fn len_dictionary(w: usize) -> Vec<(&'static str, u64)> {
+    let field_max = if w == 8 { u64::MAX } else { (1u64 << (8 * w)) - 1 };
+    let mut v: Vec<(&'static str, u64)> = vec![
+        ("len-zero", 0),
+        ("len-one", 1),
+        ("len-field-max", field_max),
+        ("len-field-msb", 1u64 << (8 * w - 1)),
+        ("len-u32max", u32::MAX as u64),
+        ("len-u32max+1", 1 << 32),
+        ("len-i64max", i64::MAX as u64),
+        ("len-2^63", 1 << 63),
+        ("len-near-u64max", u64::MAX),
+        ("len-near-u64max", u64::MAX - 1),
+        ("len-near-u64max", u64::MAX - w as u64),
+        ("len-near-u64max", u64::MAX - w as u64 + 1),
+        ("len-near-u64max", u64::MAX - w as u64 - 1),
+        ("len-near-u64max", u64::MAX - 16),
+    ];
+    v.retain(|(_, x)| *x <= field_max);
+    // one class per value (the later, more specific name wins)
+    let mut out: Vec<(&'static str, u64)> = Vec::new();
+    for (c, x) in v.into_iter().rev() {
+        if !out.iter().any(|(_, y)| *y == x) {
+            out.push((c, x));
+        }
+    }
+    out
+}
+
+fn part_hostile_rand(ctx: &mut Ctx, iters: usize) {
+    let frs = all_framers();
+    let base = ctx.rng.fork(0x4853);
+    // dictionary first (deterministic, sharded), then seeded random
+    for fr in frs.iter().copied() {
+        let Some((w, _)) = fr.len_params() else { continue };
+        for (class, val) in len_dictionary(w) {
+            for prefix in 0..2 {
+                for tail in [0usize, 1, w.saturating_sub(1), w, 9, 17] {
+                    for cd in [Cd::Bytes, Cd::Json] {
+                        if !ctx.mine() {
+                            continue;
+                        }
+                        let mut s = Vec::new();
+                        if prefix == 1 {
+                            s.extend_from_slice(&fr.ref_encode(b"[1]"));
+                        }
+                        s.extend_from_slice(&fr.header(val));
+                        s.extend((0..tail).map(|i| b"{\"k\":[0]} "[i % 10]));
+                        let n = s.len();
+                        hostile_one(ctx, fr, cd, &s, &[n], class);
+                        hostile_one(ctx, fr, cd, &s, &vec![1; n], class);
+                        if n > w + 1 {
+                            hostile_one(ctx, fr, cd, &s, &[n - tail - 1, tail + 1], class);
+                        }
+                    }
+                }
+            }
+        }
+    }
+    for it in 0..iters {
+        if ctx.rep.out_of_time() {
+            break;
+        }
+        let mut r = base.fork(it as u64);
+        let fr = *r.pick(&frs);
+        let cd = if fr == Fr::Noop || r.chance(2, 3) { Cd::Bytes } else { Cd::Json };
+        let (class, s): (&str, Vec<u8>) = match r.below(6) {
+            0 => ("random", {
+                let n = r.size(64);
+                r.bytes(n)
+            }),
+            1 => ("random-small-bytes", {
+                let n = r.size(48);
+                (0..n).map(|_| *r.pick(&[0u8, 0, 1, 2, 3, 8, 0x7f, 0x80, 0xff])).collect()
+            }),
+            2 => ("delimiter-soup", {
+                let a = hostile_alphabet(fr);
+                let n = r.size(40);
+                (0..n).map(|_| *r.pick(&a)).collect()
+            }),
+            3 => ("valid-then-garbage", {
+                let mut s = Vec::new();
+                for i in 0..r.below(4) {
+                    let p = gen_bytes(fr, 0, i, r.size(20));
+                    s.extend_from_slice(&fr.ref_encode(&p));
+                }
+                let n = r.size(24);
+                s.extend(r.bytes(n));
+                s
+            }),
+            4 => ("json-ish", {
+                let texts: [&[u8]; 8] = [b"{\"a\":1}", b"[", b"[[[[[[[[[[[[[[[[[[[[[[[[[[[[[[[[[[[[[[[[", b"\"\\u12", b"nul", b"1e999", b"{\"a\":", b"\xff\xfe"];
+                let mut s = Vec::new();
+                for _ in 0..r.range(1, 4) {
+                    let t = *r.pick(&texts);
+                    if r.chance(3, 4) { s.extend_from_slice(&fr.ref_encode(t)) } else { s.extend_from_slice(t) }
+                }
+                s
+            }),
+            _ => ("big-noop", {
+                let n = if fr == Fr::Noop { *r.pick(&[4095usize, 4096, 4097, 8192, 9000]) } else { r.size(200) };
+                r.bytes(n)
+            }),
+        };
+        let n = s.len();
+        let (_, bounds) = hostile_expected(fr, cd, &s);
+        let frags = random_frags(&mut r, fr, &bounds, n);
+        hostile_one(ctx, fr, cd, &s, &frags, class);
+    }
+}
+
+fn part_custom_err(ctx: &mut Ctx) {
+    for w in [1usize, 2, 4, 8] {
+        for be in [true, false] {
+            if !ctx.mine() {
+                continue;
+            }
+            let fr = Fr::Limit { w, be, max: 16 };
+            for (good, tail) in [(0usize, 0usize), (1, 0), (1, 5), (2, 40)] {
+                let mut s = Vec::new();
+                for i in 0..good {
+                    s.extend_from_slice(&fr.ref_encode(&gen_bytes(fr, 0, i, 3)));
+                }
+                s.extend_from_slice(&fr.header(17));
+                s.extend((0..tail).map(|_| b'z'));
+                for frags in [vec![s.len()], vec![1; s.len()]] {
+                    let replay = json!({"part": "custom-err", "framer": fr.name(), "stream": hex(&s), "frags": frags});
+                    match panics::catch(|| frame::decode_after_error(fr, &s, &frags)) {
+                        Ok(out) => {
+                            let oks = out.items.iter().take_while(|r| r.is_ok()).count();
+                            let errs = out.items.iter().filter(|r| r.is_err()).count();
+                            if oks != good || errs == 0 || out.items.iter().skip(oks).any(|r| r.is_ok()) {
+                                ctx.rep.violation(
+                                    &vsig("framer-error-not-reported", fr, Cd::Bytes, "custom-framer-err"),
+                                    &format!("expected {good} items then Err from the framer; got {oks} items, {errs} errors"),
+                                    replay,
+                                );
+                            } else {
+                                ctx.rep.eval(Some(format!("custom-err/{}/good{good}/err{}", fr.name(), errs.min(3))));
+                            }
+                        }
+                        Err(p) => {
+                            ctx.rep.eval(None);
+                            ctx.panic_verdict(&p, fr, Cd::Bytes, "poll-after-framer-error", replay);
+                        }
+                    }
+                }
+            }
+        }
+    }
+}
+
+// ---------------------------------------------------------------------------
+// Replay
+// ---------------------------------------------------------------------------
+
+fn usizes(v: &Value) -> Vec<usize> {
+    v.as_array().map(|a| a.iter().map(|x| x.as_u64().unwrap_or(0) as usize).collect()).unwrap_or_default()
+}
+
+fn replay(ctx: &mut Ctx, p: &Value) {
+    let part = p["part"].as_str().unwrap_or("");
+    let fr = Fr::parse(p["framer"].as_str().unwrap_or("")).unwrap_or(Fr::Noop);
+    let cd = Cd::parse(p["codec"].as_str().unwrap_or("bytes"));
+    match part {
+        "frame" => {
+            let specs: Vec<Spec> = p["items"].as_array().map(|a| a.iter().map(spec_parse).collect()).unwrap_or_default();
+            let ws = usizes(&p["wscript"]);
+            let mode = p["mode"].as_u64().unwrap_or(0) as u8;
+            if let Some(e) = encode(ctx, fr, cd, &specs, &ws, mode)
+                && p["stage"].is_null()
+            {
+                deliver(ctx, &e, &usizes(&p["frags"]), p["cut"].as_u64().map(|x| x as usize), "replay");
+            }
+        }
+        "hostile" => {
+            let s = unhex(p["stream"].as_str().unwrap_or(""));
+            hostile_one(ctx, fr, cd, &s, &usizes(&p["frags"]), p["class"].as_str().unwrap_or("replay"));
+        }
+        "custom-err" => {
+            let s = unhex(p["stream"].as_str().unwrap_or(""));
+            let frags = usizes(&p["frags"]);
+            if let Err(pn) = panics::catch(|| frame::decode_after_error(fr, &s, &frags)) {
+                ctx.panic_verdict(&pn, fr, Cd::Bytes, "poll-after-framer-error", p.clone());
+            }
+        }
+        _ => anc::replay(ctx, p),
+    }
+}
+
+pub fn main(args: &Args) {
+    let rep = Report::from_args("C13", &args.str("leg", "native"), args);
+    let mut ctx = Ctx {
+        rep,
+        shard: args.shard(),
+        nshards: args.nshards(),
+        rr: 0,
+        rng: Rng::new(args.seed()).fork(args.shard() + 1),
+        thorough: args.thorough(),
+        incomplete: false,
+    };
+    if let Some(path) = args.get("replay") {
+        let text = std::fs::read_to_string(path).expect("replay file");
+        let v: Value = vcommon::serde_json::from_str(&text).expect("replay json");
+        replay(&mut ctx, &v["program"]);
+        ctx.rep.finish();
+        return;
+    }
+    let all = "rt-ex,rt-cuts,rt-rand,hostile-ex,hostile-rand,custom-err,anc-ex,anc-rand,anc-hostile";
+    let parts = args.str("parts", all);
+    let has = |p: &str| parts.split(',').any(|x| x == p);
+    let t = ctx.thorough;
+    let mut exhaustive_parts = 0;
+    if has("rt-ex") {
+        part_rt_ex(&mut ctx, args.usize("ex-n", if t { 12 } else { 10 }));
+        exhaustive_parts += 1;
+    }
+    if has("rt-cuts") {
+        part_rt_cuts(&mut ctx, args.usize("cuts-n", if t { 72 } else { 40 }));
+        exhaustive_parts += 1;
+    }
+    if has("hostile-ex") {
+        part_hostile_ex(&mut ctx, args.usize("hostile-n", if t { 7 } else { 6 }));
+        exhaustive_parts += 1;
+    }
+    if has("custom-err") {
+        part_custom_err(&mut ctx);
+    }
+    if has("anc-ex") {
+        anc::part_ex(&mut ctx, args);
+        exhaustive_parts += 1;
+    }
+    if has("anc-huge") {
+        let case = args.u64("huge-case", ctx.shard);
+        anc::part_huge(&mut ctx, case);
+    }
+    if has("rt-rand") {
+        part_rt_rand(&mut ctx, args.iters(2500, 40_000), args.usize("rnd-max-len", 70_000));
+    }
+    if has("hostile-rand") {
+        part_hostile_rand(&mut ctx, args.usize("hostile-iters", if t { 60_000 } else { 6000 }));
+    }
+    if has("anc-rand") {
+        anc::part_rand(&mut ctx, args);
+    }
+    if has("anc-hostile") {
+        anc::part_hostile(&mut ctx, args);
+    }
+    if exhaustive_parts > 0 {
+        let inc = ctx.incomplete;
+        ctx.rep.set_exhaustive(!inc);
+    }
+    ctx.rep.finish();
 }
